@@ -78,6 +78,12 @@ def _run_hist(case):
             table[ident] = regs[ent[1]]
         elif ent[0] == "call":
             table[ident] = (lambda d=ent[1]: mkpipe(d))
+        elif ent[0] == "seq":          # a callable with a memory: k-th call -> k-th definition, then the last one
+            def seqcall(ds=ent[1], st=[0]):
+                d = ds[min(st[0], len(ds) - 1)]
+                st[0] += 1
+                return mkpipe(d)
+            table[ident] = seqcall
         elif ent[0] == "file":
             with open(ident, "w") as f:
                 f.write(yaml.safe_dump(pipedict(ent[1]), sort_keys=False))
